@@ -1,7 +1,7 @@
 /-!
 # Lock-set discipline (second tie of C13)
 
-`Access` is one row of the table regenerated from loader/*.go by /verif/extract (family locksets): a read or write site of
+`Access` is one row of the tables regenerated from loader/*.go (`locksets`) and internal/runtime.go (`rtLocksets`) by /verif/extract (family locksets): a read or write site of
 a shared field with the mutexes syntactically held there.  Core Lean only; the table lives in `Generated/Locksets.lean`.
 -/
 namespace Pcore.Lockset
@@ -32,6 +32,9 @@ def disciplineOf (field : String) : Option Discipline :=
   else if field = "fileBasedLoader.index" then some (.guardedBy "lock")
   else if field = "loaderEntry.value" then some .immutable
   else if field = "dependencyLoader.index" then some .immutable
+  else if field = "rt.systemLoader" then some (.guardedBy "lock")        -- internal/runtime.go: rt.lock
+  else if field = "rt.environmentLoader" then some (.guardedBy "lock")
+  else if field = "rt.settings" then some (.guardedBy "lock")
   else none                         -- in particular every `unknown: …` row
 
 def holds (a : Access) (m : String) (md : Mode) : Bool := a.held.contains (m, md)
@@ -56,5 +59,17 @@ def raceWitness (tbl : List Access) : Option (Access × Option Access) :=
   | none => none
   | some a =>
     some (a, tbl.find? fun b => b.field == a.field && (a.write || b.write) && !b.init && !excl a b)
+
+/-- READ sites recorded as being outside the lock (function, field).  `rt.SystemLoader` returns `p.systemLoader` AFTER
+    `p.lock.Unlock()`: the read races with the write of `rt.Reset` (`C13_rt_systemloader_read_races`); recorded, not
+    accepted — every other site of the table must follow the discipline -/
+def knownUnlockedReads : List (String × String) := [("rt.SystemLoader", "rt.systemLoader")]
+
+def exempt (known : List (String × String)) (a : Access) : Bool := !a.write && known.contains (a.fn, a.field)
+
+/-- the table without the recorded read sites -/
+def withoutKnown (known : List (String × String)) (tbl : List Access) : List Access := tbl.filter fun a => !exempt known a
+
+def locksetOKExcept (known : List (String × String)) (tbl : List Access) : Bool := locksetOK (withoutKnown known tbl)
 
 end Pcore.Lockset
